@@ -112,6 +112,7 @@ def run(ctx, rep):
     check_return_window(fx, rep)
     check_context_confinement(fx, rep)
     check_window_arithmetic(fx, rep)
+    check_eof_call_window(fx, rep)
     rep.assume('Vec::resize(len, 0) zero-fills (standard library)')
     rep.assume('cfg memory_limit adds an early MemoryLimitOOG return inside the size test; it only removes paths')
 
@@ -520,3 +521,43 @@ def check_return_window(fx, rep):
         rep.ok('R4-return-window', 'insert_call_outcome', '%d write(s): set(memory_offset.start, return_data[..min(out_len, len)])' % len(writes))
     else:
         rep.violation('R4-return-window', 'insert_call_outcome', 'the parent memory is written outside the designated return-data window', f.where())
+
+
+def check_eof_call_window(fx, rep):
+    """R8: the EOF call family (EXTCALL, EXTDELEGATECALL, EXTSTATICCALL) has no output window: the
+    CallInputs it builds carry the empty range 0..0 as return_memory_offset, so that the outcome
+    insertion copies nothing into the caller's memory (return data is read with RETURNDATACOPY)."""
+    from cfg import Origins
+    n = 0
+    for nm in ('extcall', 'extdelegatecall', 'extstaticcall'):
+        f = fx.fns.get('revm_interpreter::instructions::contract::' + nm)
+        if f is None:
+            rep.undecided('R8-eof-call-window', nm, 'not found')
+            continue
+        rep.fn(f)
+        og = Origins(f, fx)
+        found = False
+        for b in f.blocks:
+            if b.cleanup:
+                continue
+            for s_ in b.stmts:
+                if s_.kind != 'assign' or s_.rv is None or s_.rv.rv != 'agg' or not str(s_.rv.d.get('adt', '')).endswith('CallInputs'):
+                    continue
+                names = s_.rv.d.get('names') or s_.rv.d.get('fields') or []
+                if 'return_memory_offset' not in names:
+                    continue
+                found = True
+                n += 1
+                oo = og.of_operand(s_.rv.ops[names.index('return_memory_offset')])
+                empty = bool(oo)
+                for o in oo:
+                    if not (o.root[0] == 'agg' and str(o.root[1]).endswith('::Range') and len(o.root[4]) == 2 and
+                            all(len(x) == 1 and x[0].root[0] == 'const' and x[0].root[1] == 0 for x in o.root[4])):
+                        empty = False
+                if empty:
+                    rep.ok('R8-eof-call-window', nm, 'return_memory_offset = 0..0')
+                else:
+                    rep.violation('R8-eof-call-window', nm, '%s hands the callee outcome a return window %s; EOF calls have none (0..0), otherwise return data overwrites the caller\'s memory' % (nm, [o.render() for o in oo]), f.where(b.i))
+        if not found:
+            rep.undecided('R8-eof-call-window', nm, 'CallInputs construction not found', f.where())
+    rep.floor('R8-eof-call-sites', n, 3)
